@@ -43,6 +43,7 @@ type Token struct {
 	Name        string // tag name (lower-cased)
 	Attrs       []Attr
 	SelfClosing bool
+	DupAttrs    []Attr // attributes dropped because an earlier one has the same name
 	Data        string // text, comment or doctype data
 	Mode        string // for Text: data, rcdata, rawtext, script, plaintext, cdata
 	Start, End  int    // byte span in the preprocessed input
@@ -263,24 +264,24 @@ func (z *tokenizer) finishAttr() {
 
 // dedupeAttrs drops attributes whose name duplicates an earlier one, as the
 // tokenizer does (duplicate-attribute parse error).
-func dedupeAttrs(as []Attr) []Attr {
+func dedupeAttrs(as []Attr) (kept, dropped []Attr) {
 	seen := map[string]bool{}
-	out := as[:0:0]
 	for _, a := range as {
 		if seen[a.Name] {
+			dropped = append(dropped, a)
 			continue
 		}
 		seen[a.Name] = true
-		out = append(out, a)
+		kept = append(kept, a)
 	}
-	return out
+	return
 }
 
 func (z *tokenizer) emitTag(end int) {
 	z.finishAttr()
 	z.flushText()
 	z.cur.End = end
-	z.cur.Attrs = dedupeAttrs(z.cur.Attrs)
+	z.cur.Attrs, z.cur.DupAttrs = dedupeAttrs(z.cur.Attrs)
 	tok := z.cur
 	z.toks = append(z.toks, tok)
 	z.st = sData
